@@ -262,11 +262,15 @@ fn grid() -> Vec<Cell> {
                     ("client_utf8role", true, true, Some("Bediener Ölförderung 操作员")),
                     ("client_spacerole", true, true, Some("night shift operator")),
                     ("client_norole", true, false, None),
+                    ("client_tworoles", true, false, None),
                     ("client_expired", false, false, None),
                     ("client_future", false, false, None),
                     ("client_ca2", false, false, None),
                     ("", false, false, None),
                 ] {
+                    if cert == "client_tworoles" && !authz {
+                        continue;
+                    }
                     v.push(Cell {
                         role: "server",
                         min,
@@ -702,3 +706,167 @@ pub fn c09_replay(v: &serde_json::Value) -> CaseResult {
 
 #[allow(dead_code)]
 fn _p(_: &Path) {}
+
+
+// ---------------------------------------------------------------------------------------------
+// an independent TLS implementation as the peer: openssl s_client / s_server
+
+fn openssl_version_flag(o: Offer) -> Option<&'static str> {
+    match o {
+        Offer::V12 => Some("-tls1_2"),
+        Offer::V13 => Some("-tls1_3"),
+        Offer::Both => None,
+    }
+}
+
+/// rodbus TLS server (authority mode) probed with `openssl s_client`
+fn openssl_client_cell(c: &Cell) -> CaseResult {
+    use std::io::{Read, Write};
+    use std::process::{Command, Stdio};
+    let rt = rt(2);
+    let (addr, calls, roles, handle, join) = rt.block_on(async {
+        let cfg = TlsServerConfig::new(
+            &path("ca1", "pem"),
+            &path("server_ok", "pem"),
+            &path("server_ok", "key"),
+            None,
+            min_tls(c.min),
+            rodbus::client::CertificateMode::AuthorityBased,
+        )
+        .map_err(|e| format!("INFRA: {}", e))?;
+        let listener = TcpListener::bind("127.0.0.1:0").await.map_err(|e| format!("INFRA: {}", e))?;
+        let addr = listener.local_addr().unwrap();
+        let calls = Arc::new(Mutex::new(0u32));
+        let roles = Arc::new(Mutex::new(Vec::new()));
+        let map = ServerHandlerMap::single(UnitId::new(1), Sentinel { calls: calls.clone() }.wrap());
+        let (handle, task) = if c.authz {
+            rodbus::server::create_tls_server_task_with_authz(
+                4, listener, map, Arc::new(RoleRecorder { roles: roles.clone() }), cfg, AddressFilter::Any, DecodeLevel::nothing(),
+            )
+        } else {
+            rodbus::server::create_tls_server_task(4, listener, map, cfg, AddressFilter::Any, DecodeLevel::nothing())
+        };
+        let join = tokio::spawn(task.run());
+        Ok::<_, String>((addr, calls, roles, handle, join))
+    })?;
+    let mut cmd = Command::new("openssl");
+    cmd.arg("s_client")
+        .arg("-connect")
+        .arg(format!("127.0.0.1:{}", addr.port()))
+        .arg("-quiet")
+        .arg("-no_ign_eof")
+        .arg("-CAfile")
+        .arg(path("ca1", "pem"));
+    if !c.peer_cert.is_empty() {
+        cmd.arg("-cert").arg(path(c.peer_cert, "pem")).arg("-key").arg(path(c.peer_cert, "key"));
+    }
+    if let Some(f) = openssl_version_flag(c.offer) {
+        cmd.arg(f);
+    }
+    let mut child = cmd
+        .stdin(Stdio::piped())
+        .stdout(Stdio::piped())
+        .stderr(Stdio::null())
+        .spawn()
+        .map_err(|e| format!("INFRA: cannot run openssl: {}", e))?;
+    let mut stdin = child.stdin.take().unwrap();
+    let mut stdout = child.stdout.take().unwrap();
+    let req = mbap_frame(9, 1, &[3, 0, 0, 0, 1]);
+    // give the handshake a moment, then send the request; keep stdin open while waiting
+    std::thread::sleep(Duration::from_millis(150));
+    let _ = stdin.write_all(&req);
+    let _ = stdin.flush();
+    let (tx, rx) = std::sync::mpsc::channel();
+    std::thread::spawn(move || {
+        let mut got = Vec::new();
+        let mut buf = [0u8; 64];
+        while got.len() < 11 {
+            match stdout.read(&mut buf) {
+                Ok(0) | Err(_) => break,
+                Ok(n) => got.extend_from_slice(&buf[..n]),
+            }
+        }
+        let _ = tx.send(got);
+    });
+    let got = rx.recv_timeout(Duration::from_millis(2500)).unwrap_or_default();
+    drop(stdin);
+    let _ = child.kill();
+    let _ = child.wait();
+    drop(handle);
+    let _ = rt.block_on(async { tokio::time::timeout(Duration::from_secs(2), join).await });
+    let served = got == mbap_frame(9, 1, &[3, 2, 0xBE, 0xEF]);
+    let expect = c.expect_accept();
+    if served != expect {
+        return Err(format!(
+            "openssl s_client against the rodbus TLS server, cell {}: peer was {} but must be {}",
+            c.json(),
+            if served { "served" } else { "refused" },
+            if expect { "served" } else { "refused" }
+        ));
+    }
+    if !served && (*calls.lock().unwrap() != 0 || !roles.lock().unwrap().is_empty()) {
+        return Err(format!("openssl s_client cell {}: refused peer reached the application", c.json()));
+    }
+    if served && c.authz {
+        let want = c.expect_role.unwrap_or("");
+        if *roles.lock().unwrap() != vec![want.to_string()] {
+            return Err(format!("openssl s_client cell {}: role seen {:?}, certificate says {:?}", c.json(), roles.lock().unwrap(), want));
+        }
+    }
+    let mut ok = CaseOk::new();
+    ok.nontrivial = c.faults() == 1;
+    Ok(ok)
+}
+
+pub fn c09_openssl(ctx: &Ctx) -> SearchReport {
+    let mut rep = SearchReport::empty(
+        "c09_openssl_peer",
+        "the authority-mode server cells of the grid (rodbus is the TLS server) probed with `openssl s_client` as an independent TLS implementation: quick = every 5th cell, thorough = all; same truth-table oracle",
+    );
+    if std::process::Command::new("openssl").arg("version").output().is_err() {
+        rep.health_errors.push("INFRA: openssl CLI not available".to_string());
+        return rep;
+    }
+    let cells: Vec<Cell> = grid()
+        .into_iter()
+        .filter(|c| c.role == "server" && c.mode == "authority")
+        .collect();
+    let step = if ctx.tier == Tier::Quick { 5 } else { 1 };
+    for (i, c) in cells.iter().enumerate() {
+        if i % step != 0 {
+            continue;
+        }
+        let r = super::retry3(|_slow| openssl_client_cell(c));
+        rep.stats.evaluations += 1;
+        match r {
+            Ok(ok) => {
+                if ok.nontrivial {
+                    rep.stats.nontrivial_total += 1;
+                    rep.stats.distinct.insert(i as u64);
+                    if rep.stats.samples.len() < 2 {
+                        rep.stats.samples.push(c.json());
+                    }
+                }
+            }
+            Err(m) => {
+                rep.failure = Some(Failure {
+                    message: m,
+                    case: json!({"openssl_cell_index": i, "cell": c.json()}),
+                    hang: false,
+                });
+                return rep;
+            }
+        }
+    }
+    rep.exhaustive = step == 1;
+    rep
+}
+
+pub fn c09_openssl_replay(v: &serde_json::Value) -> CaseResult {
+    let i = v["openssl_cell_index"].as_u64().ok_or("openssl_cell_index")? as usize;
+    let cells: Vec<Cell> = grid()
+        .into_iter()
+        .filter(|c| c.role == "server" && c.mode == "authority")
+        .collect();
+    openssl_client_cell(cells.get(i).ok_or("no such cell")?)
+}
